@@ -11,7 +11,8 @@ import mlib
 from vlib import Check, ensure_theory, probe_json, props_assumptions
 
 PID = 'C20'
-THEOREMS = ['C20_export_faithful', 'C20_export_faithful_refuted', 'C20_export_access_refuted']
+THEOREMS = ['C20_export_faithful', 'C20_export_faithful_history', 'C20_export_faithful_refuted',
+            'C20_export_access_refuted']
 HDR = mlib.HEADER.replace('Sem.Export.', 'Sem.Export Sem.ExportProofs Sem.ExportRun.') + 'Require Import GC20.Logics.\n'
 
 K_ANTI = 'Frame._get_predicate_data_values/unassigned-F-anti-extension'
@@ -172,6 +173,10 @@ def run(args) -> int:
                     models.append((dict(kind='direct', logic=case['logic'], ops=case['ops']), order, r))
                 else:
                     chk.count('direct_raised', r['err'])
+                    if r['err'] == 'Hang':
+                        chk.violation('nontermination:finish-or-export', f'{case["logic"]}: building / exporting the model of '
+                                      f'{case["ops"]} did not return within the time limit',
+                                      dict(kind='direct', logic=case['logic'], ops=case['ops'], order=order, clause='hang'))
         for out in bouts:
             for ent in out:
                 chk.count('source', 'branch')
@@ -270,6 +275,11 @@ def replay(path: str) -> int:
     else:
         r = probe_json('probe_export.py', ['direct'], order=order, stdin=json.dumps([dict(logic=rep['logic'], ops=rep['ops'])]))[0]
         obs = r if r['err'] is None else None
+    if rep.get('clause') == 'hang':
+        if rep.get('kind') == 'direct' and r['err'] == 'Hang':
+            print(f'VIOLATION property={PID} replay={path}')
+            return 1
+        return 0
     if obs is None:
         print('replay: the model is no longer produced')
         return 0
